@@ -26,13 +26,18 @@ class Recorder:
         self.violations = []
         self.history = []
         self.max_history = 60
+        self._per_key = {}
 
     def ev(self, name, n=1):
         self.events[name] = self.events.get(name, 0) + n
 
     def violate(self, key, msg, **witness):
         self.ev('violations_raw')
-        if len(self.violations) < 25:
+        # keep at most 4 witnesses per mechanism key and case (so that a frequent known
+        # finding cannot crowd out a different violation of the same case)
+        n = self._per_key.get(key, 0)
+        self._per_key[key] = n + 1
+        if n < 4 and len(self.violations) < 200:
             self.violations.append({'key': key, 'msg': msg, 'witness': witness})
 
     def log(self, entry):
@@ -68,7 +73,7 @@ def entry_family(family):
 
 def exc_key(exc, family):
     mod, func = jedi_frame(exc)
-    return 'exc:%s@%s:%s/%s' % (type(exc).__name__, mod, func, entry_family(family))
+    return 'exc:%s@%s:%s' % (type(exc).__name__, mod, func)
 
 
 def position_in_range(code, line, column):
